@@ -4,6 +4,7 @@ package agreement
 
 import (
 	"runtime"
+	"strings"
 	"time"
 
 	"github.com/algorand/go-algorand/config"
@@ -36,17 +37,17 @@ const verifC01Values = 3
 type verifC01Kind int
 
 const (
-	vkPMThreshold    verifC01Kind = iota // soft/cert/next threshold delivered to proposalMachine
-	vkPMNewRound                         // roundInterruption delivered to proposalMachine
-	vkPMMessage                          // filterable message delivered to proposalMachine
-	vkStaged                             // readStaging
-	vkPinned                             // readPinned
-	vkLowest                             // readLowestVote
-	vkFrozen                             // proposalFrozen
-	vkVMMessage                          // filterable message delivered to voteMachine
-	vkFreshest                           // freshestBundleRequest
-	vkNextStatus                         // nextThresholdStatusRequest
-	vkDumpVotes                          // dumpVotesRequest
+	vkPMThreshold verifC01Kind = iota // soft/cert/next threshold delivered to proposalMachine
+	vkPMNewRound                      // roundInterruption delivered to proposalMachine
+	vkPMMessage                       // filterable message delivered to proposalMachine
+	vkStaged                          // readStaging
+	vkPinned                          // readPinned
+	vkLowest                          // readLowestVote
+	vkFrozen                          // proposalFrozen
+	vkVMMessage                       // filterable message delivered to voteMachine
+	vkFreshest                        // freshestBundleRequest
+	vkNextStatus                      // nextThresholdStatusRequest
+	vkDumpVotes                       // dumpVotesRequest
 )
 
 // one oracle consultation
@@ -73,7 +74,7 @@ type verifC01Ask struct {
 	thr    thresholdEvent
 }
 
-const verifC01MaxAsks = 24
+const verifC01MaxAsks = 32
 
 type verifC01Oracle struct {
 	ops  [verifC01Values]period // OriginalPeriod of the representative values
@@ -82,9 +83,13 @@ type verifC01Oracle struct {
 
 	preRound round // player round before the step (freshest-bundle contract)
 
-	// which answers the harness allows (to split work between harnesses)
-	msgVoteAnswers  bool
-	allowFreshestOk bool
+	// which answers the harness allows (to split the answer space between harnesses)
+	freshestBudget  int       // how many freshest-bundle requests may be answered Ok
+	allowPipelined  bool      // newRound may report a pipelined payload
+	allowLowest     bool      // readLowestVote may report a vote
+	noPinnedPayload bool      // readPinned never reports a payload (only relays depend on it)
+	stable          bool      // stability contracts across steps (C02), see assumeStagingStable
+	onlyKind        eventType // if != none: every threshold event the oracle hands out is of this kind
 }
 
 var verifC01 *verifC01Oracle
@@ -96,8 +101,15 @@ func verifC01Val(o *verifC01Oracle, i int) proposalValue {
 	return v
 }
 
+// a symbolic index < n (no case split: used to index tables / build values)
+func verifC01Pick(label string, n int) int {
+	x := int(vr.U8(label))
+	vr.Assume(x < n)
+	return x
+}
+
 func verifC01PickVal(o *verifC01Oracle, label string) proposalValue {
-	return verifC01Val(o, verifC04Pick(label, verifC01Values))
+	return verifC01Val(o, verifC01Pick(label, verifC01Values))
 }
 
 // a payload whose value() is v (see verifStubProposalValue): identified by SeedProof[0]
@@ -135,9 +147,20 @@ func verifC01NewOracle() *verifC01Oracle {
 	return o
 }
 
+// the answer sub-spaces that the quick tier leaves to dedicated harnesses
+// (VerifC01RoundInterruption, VerifC03CertThreshold) are opened everywhere in the thorough tier
+func verifC01ThoroughOptions(o *verifC01Oracle) {
+	if vr.Param(0, 1) == 1 {
+		o.allowPipelined = true
+		o.allowLowest = true
+	}
+}
+
 func verifC01InstallConsensus() {
 	var cp config.ConsensusParams
-	cp.FastRecoveryLambda = 5 * time.Minute
+	// a power of two (~4.6 min): handleFastTimeout's k*lambda / (k+1)*lambda window arithmetic is then
+	// shifts for the bit-vector solver; timing is outside the lemmas
+	cp.FastRecoveryLambda = 1 << 38
 	cp.AgreementFilterTimeout = 4 * time.Second
 	cp.AgreementFilterTimeoutPeriod0 = 4 * time.Second
 	cp.AgreementDeadlineTimeoutPeriod0 = 17 * time.Second
@@ -168,6 +191,57 @@ func verifC01Player() *player {
 	vr.Assume(p.FastRecoveryDeadline < 1<<50)
 	p.lowestCredentialArrivals = makeCredentialArrivalHistory(dynamicFilterCredentialArrivalHistory)
 	return p
+}
+
+// Whether the staging value of (r, p) has an assembled payload does not change
+// within a step unless a payloadVerified message is delivered (which the player
+// delivers first): proposalStore.handle answers a soft/cert threshold for (r, p)
+// with proposalCommittable iff Assemblers[staging].Assembled, and readStaging
+// reports Committable = Assemblers[staging].Assembled, for the same staging
+// value (set by the threshold, proposalTracker.handle).
+func (o *verifC01Oracle) assumeCommittableStable(r round, p period, committable bool) {
+	from := 0
+	for i := 0; i < o.n; i++ {
+		if o.asks[i].kind == vkPMMessage {
+			from = i + 1 // a delivered payload may have completed an assembler
+		}
+	}
+	for i := from; i < o.n; i++ {
+		q := &o.asks[i]
+		switch q.kind {
+		case vkPMThreshold:
+			if q.evT != nextThreshold {
+				vr.Assume(!(q.evRound == r && q.evPeriod == p) || committable == (q.ansT == proposalCommittable))
+			}
+		case vkStaged:
+			vr.Assume(!(q.r == r && q.p == p) || committable == q.flag)
+		}
+	}
+}
+
+// Stability contract used by C02 (DESIGN: "staged value of a period ... does not
+// change once reported"): the staging value of (r, p), once non-bottom, is the
+// same in every later report - readStaging, the value staged by a soft/cert
+// threshold of (r, p) (proposalTracker.handle: Staging = e.Proposal), the value
+// a payloadVerified is committable against.  The tracker itself would overwrite
+// Staging on a second threshold for another value; that this does not happen is
+// C06 (one threshold per step, one value) - a stated stub contract here.
+func (o *verifC01Oracle) assumeStagingStable(r round, p period, val proposalValue) {
+	for i := 0; i < o.n; i++ {
+		q := &o.asks[i]
+		switch q.kind {
+		case vkStaged:
+			vr.Assume(!(q.r == r && q.p == p && q.val != bottom && val != bottom) || q.val == val)
+		case vkPMThreshold:
+			if q.evT != nextThreshold {
+				vr.Assume(!(q.evRound == r && q.evPeriod == p && val != bottom) || q.evVal == val)
+			}
+		case vkPMMessage:
+			if q.ansT == proposalCommittable {
+				vr.Assume(!(q.stRound == r && q.stPeriod == p && val != bottom) || q.val == val)
+			}
+		}
+	}
 }
 
 func (o *verifC01Oracle) record(a verifC01Ask) *verifC01Ask {
@@ -211,7 +285,10 @@ func verifC01Threshold(o *verifC01Oracle, t eventType, r round, label string) th
 	return e
 }
 
-func verifC01ThresholdKind(label string) eventType {
+func verifC01ThresholdKind(o *verifC01Oracle, label string) eventType {
+	if o.onlyKind != none {
+		return o.onlyKind
+	}
 	switch vr.Choice(label, 3) {
 	case 0:
 		return softThreshold
@@ -238,10 +315,19 @@ func (o *verifC01Oracle) dispatch(t *tracer, state player, e event, src stateMac
 			// proposalStore.handle(soft/certThreshold): committableEvent iff the staged value's
 			// payload is assembled, else proposalAcceptedEvent.  Assemblers[bottom] never exists
 			// (proposalStore.trim deletes it), so a committable value is never bottom.
-			if vr.Bool("pm.thr.committable") {
+			committable := vr.Bool("pm.thr.committable")
+			o.assumeCommittableStable(ev.Round, ev.Period, committable)
+			if o.stable {
+				o.assumeStagingStable(ev.Round, ev.Period, ev.Proposal)
+			}
+			if committable {
 				a.ansT = proposalCommittable
 				a.val = verifC01PickVal(o, "pm.thr.value")
 				vr.Assume(a.val != bottom)
+				if o.stable {
+					// proposalTracker stages e.Proposal, proposalStore answers committableEvent{Proposal: e.Proposal}
+					vr.Assume(a.val == ev.Proposal)
+				}
 				o.record(a)
 				return committableEvent{Proposal: a.val}
 			}
@@ -253,7 +339,7 @@ func (o *verifC01Oracle) dispatch(t *tracer, state player, e event, src stateMac
 			a.kind = vkPMNewRound
 			a.evRound = ev.Round
 			// proposalStore.handle(newRound): payloadPipelined for a pipelined payload, else empty
-			if vr.Bool("pm.newround.pipelined") {
+			if o.allowPipelined && vr.Bool("pm.newround.pipelined") {
 				a.ansT = payloadPipelined
 				a.val = verifC01PickVal(o, "pm.newround.value")
 				o.record(a)
@@ -277,6 +363,10 @@ func (o *verifC01Oracle) dispatch(t *tracer, state player, e event, src stateMac
 			// proposalStore.handle(readStaging): Committable = Assemblers[staged].Assembled,
 			// Assemblers[bottom] does not exist; an assembler holds a payload whose value() is its key
 			vr.Assume(!a.flag || a.val != bottom)
+			o.assumeCommittableStable(ev.Round, ev.Period, a.flag)
+			if o.stable {
+				o.assumeStagingStable(ev.Round, ev.Period, a.val)
+			}
 			// proposalTracker.handle(soft/certThreshold) sets Staging = e.Proposal: once a soft/cert
 			// threshold e was delivered to the proposal machine in this step, the staging value of
 			// (e.Round, e.Period) is e.Proposal.
@@ -298,7 +388,7 @@ func (o *verifC01Oracle) dispatch(t *tracer, state player, e event, src stateMac
 			a.kind = vkPinned
 			a.ansT = readPinned
 			a.val = verifC01PickVal(o, "pinned.value")
-			a.flag = vr.Bool("pinned.payloadok")
+			a.flag = !o.noPinnedPayload && vr.Bool("pinned.payloadok")
 			vr.Assume(!a.flag || a.val != bottom)
 			o.record(a)
 			ev.Proposal = a.val
@@ -310,7 +400,7 @@ func (o *verifC01Oracle) dispatch(t *tracer, state player, e event, src stateMac
 		case readLowestEvent:
 			a.kind = vkLowest
 			a.ansT = readLowestVote
-			a.flag = vr.Bool("lowest.has")
+			a.flag = o.allowLowest && vr.Bool("lowest.has")
 			o.record(a)
 			ev.HasLowestIncludingLate = a.flag
 			ev.LowestIncludingLate.validatedAt = time.Duration(vr.I64("lowest.validatedat"))
@@ -322,6 +412,15 @@ func (o *verifC01Oracle) dispatch(t *tracer, state player, e event, src stateMac
 			a.kind = vkFrozen
 			a.ansT = proposalFrozen
 			a.val = verifC01PickVal(o, "frozen.value")
+			if o.stable {
+				// proposalSeeker.freeze: Lowest is no longer modified once frozen
+				for i := 0; i < o.n; i++ {
+					q := &o.asks[i]
+					if q.kind == vkFrozen {
+						vr.Assume(!(q.r == r && q.p == p) || q.val == a.val)
+					}
+				}
+			}
 			o.record(a)
 			ev.Proposal = a.val
 			return ev
@@ -338,8 +437,9 @@ func (o *verifC01Oracle) dispatch(t *tracer, state player, e event, src stateMac
 			a.kind = vkFreshest
 			a.ansT = freshestBundle
 			a.flag = false
-			if o.allowFreshestOk {
-				a.flag = vr.Bool("freshest.ok")
+			if o.freshestBudget > 0 && vr.Bool("freshest.ok") {
+				a.flag = true
+				o.freshestBudget--
 			}
 			if !a.flag {
 				o.record(a)
@@ -351,7 +451,7 @@ func (o *verifC01Oracle) dispatch(t *tracer, state player, e event, src stateMac
 			// player's round never decreases: no round beyond preRound+1 has seen a vote, and round
 			// preRound+1 has seen period-0 votes only.
 			vr.Assume(r <= o.preRound+1)
-			a.thr = verifC01Threshold(o, verifC01ThresholdKind("freshest.kind"), r, "freshest")
+			a.thr = verifC01Threshold(o, verifC01ThresholdKind(o, "freshest.kind"), r, "freshest")
 			vr.Assume(r <= o.preRound || a.thr.Period == 0)
 			a.val = a.thr.Proposal
 			o.record(a)
@@ -369,6 +469,19 @@ func (o *verifC01Oracle) dispatch(t *tracer, state player, e event, src stateMac
 			if p >= 1<<62 {
 				vr.Assume(!a.flag && a.val == bottom)
 			}
+			if o.stable {
+				// stated contract (DESIGN C02): a period's next-threshold status, once reported,
+				// only grows (voteTrackerPeriod.Cached; a second next-value quorum for another
+				// value would need two quorums of one period for different values)
+				for i := 0; i < o.n; i++ {
+					q := &o.asks[i]
+					if q.kind == vkNextStatus {
+						same := q.r == r && q.p == p
+						vr.Assume(!(same && q.val != bottom) || q.val == a.val)
+						vr.Assume(!(same && q.flag) || a.flag)
+					}
+				}
+			}
 			o.record(a)
 			return nextThresholdStatusEvent{Bottom: a.flag, Proposal: a.val}
 		}
@@ -379,10 +492,8 @@ func (o *verifC01Oracle) dispatch(t *tracer, state player, e event, src stateMac
 			a.ansT = dumpVotes
 			o.record(a)
 			var d dumpVotesEvent
-			if vr.Bool("dump.one") {
-				d.Votes = make([]unauthenticatedVote, 1)
-				d.Votes[0].R.Round, d.Votes[0].R.Period, d.Votes[0].R.Step = r, p, s
-			}
+			d.Votes = make([]unauthenticatedVote, 1)
+			d.Votes[0].R.Round, d.Votes[0].R.Period, d.Votes[0].R.Step = r, p, s
 			return d
 		}
 	}
@@ -391,13 +502,148 @@ func (o *verifC01Oracle) dispatch(t *tracer, state player, e event, src stateMac
 	return emptyEvent{}
 }
 
-// filled in by zz_verif_c01msg.go
+var verifC01Err = makeSerErrStr("verif: oracle says no")
+
+// proposalManager.handleMessageEvent, as seen by the player
 func (o *verifC01Oracle) proposalMessage(a verifC01Ask, state player, ev filterableMessageEvent) event {
+	switch ev.t() {
+	case votePresent:
+		// voteFiltered (possibly "still verify it for credential tracking") or empty
+		if vr.Bool("pm.votepresent.filtered") {
+			a.ansT = voteFiltered
+			o.record(a)
+			note := NoLateCredentialTrackingImpact
+			if vr.Bool("pm.votepresent.note") {
+				note = UnverifiedLateCredentialForTracking
+			}
+			return filteredEvent{T: voteFiltered, Err: verifC01Err, LateCredentialTrackingNote: note}
+		}
+		a.ansT = none
+		o.record(a)
+		return emptyEvent{}
+	case voteVerified:
+		// voteMalformed, voteFiltered (note is No.. or VerifiedBetter.. only: proposalSeeker.accept,
+		// proposalManager.handleMessageEvent normalises anything else), or proposalAccepted
+		switch vr.Choice("pm.voteverified", 3) {
+		case 0:
+			a.ansT = voteMalformed
+			o.record(a)
+			return filteredEvent{T: voteMalformed, Err: verifC01Err}
+		case 1:
+			a.ansT = voteFiltered
+			o.record(a)
+			note := NoLateCredentialTrackingImpact
+			if vr.Bool("pm.voteverified.note") {
+				note = VerifiedBetterLateCredentialForTracking
+			}
+			return filteredEvent{T: voteFiltered, Err: verifC01Err, LateCredentialTrackingNote: note}
+		}
+		a.ansT = proposalAccepted
+		a.val = verifC01PickVal(o, "pm.voteverified.value")
+		a.flag = vr.Bool("pm.voteverified.payloadok")
+		vr.Assume(!a.flag || a.val != bottom)
+		o.record(a)
+		pa := proposalAcceptedEvent{Round: ev.Input.Vote.R.Round, Period: ev.Input.Vote.R.Period, Proposal: a.val, PayloadOk: a.flag}
+		if a.flag {
+			pa.Payload = verifC01Payload(a.val)
+		}
+		return pa
+	case payloadPresent:
+		// payloadRejected, or payloadPipelined for the player's round or the next one
+		if vr.Bool("pm.payloadpresent.rejected") {
+			a.ansT = payloadRejected
+			o.record(a)
+			return payloadProcessedEvent{T: payloadRejected, Err: verifC01Err}
+		}
+		a.ansT = payloadPipelined
+		a.val = verifStubProposalValue(ev.Input.UnauthenticatedProposal)
+		o.record(a)
+		pe := payloadProcessedEvent{T: payloadPipelined, Round: state.Round, Period: period(vr.U64("pm.payloadpresent.period")), Pinned: vr.Bool("pm.payloadpresent.pinned"), Proposal: a.val, UnauthenticatedPayload: ev.Input.UnauthenticatedProposal}
+		if vr.Bool("pm.payloadpresent.nextround") {
+			pe.Round = state.Round + 1
+		}
+		return pe
+	case payloadVerified:
+		// payloadMalformed, payloadRejected, or - for a payload some assembler waits for (never
+		// bottom: proposalStore.trim deletes Assemblers[bottom]) - payloadAccepted /
+		// proposalCommittable carrying the payload's own value (proposalStore.handle: pv := pp.value())
+		switch vr.Choice("pm.payloadverified", 4) {
+		case 0:
+			a.ansT = payloadMalformed
+			o.record(a)
+			return filteredEvent{T: payloadMalformed, Err: verifC01Err}
+		case 1:
+			a.ansT = payloadRejected
+			o.record(a)
+			return payloadProcessedEvent{T: payloadRejected, Err: verifC01Err}
+		case 2:
+			a.ansT = payloadAccepted
+			a.val = verifStubProposalValue(ev.Input.Proposal.u())
+			vr.Assume(a.val != bottom)
+			o.record(a)
+			return payloadProcessedEvent{T: payloadAccepted, Proposal: a.val}
+		}
+		a.ansT = proposalCommittable
+		a.val = verifStubProposalValue(ev.Input.Proposal.u())
+		vr.Assume(a.val != bottom)
+		if o.stable {
+			// proposalStore.handle(payloadVerified): committable iff the payload's value is the
+			// staging value of the player's (round, period)
+			o.assumeStagingStable(state.Round, state.Period, a.val)
+		}
+		o.record(a)
+		return committableEvent{Proposal: a.val}
+	}
 	vr.Assert("c01.oracle.unexpected-request", false)
 	return emptyEvent{}
 }
 
+// voteAggregator.handle, as seen by the player
 func (o *verifC01Oracle) voteMessage(a verifC01Ask, state player, ev filterableMessageEvent) event {
+	switch ev.t() {
+	case votePresent, bundlePresent:
+		if vr.Bool("vm.present.filtered") {
+			a.ansT = voteFiltered
+			if ev.t() == bundlePresent {
+				a.ansT = bundleFiltered
+			}
+			o.record(a)
+			return filteredEvent{T: a.ansT, Err: verifC01Err}
+		}
+		a.ansT = none
+		o.record(a)
+		return emptyEvent{}
+	case voteVerified, bundleVerified:
+		malformed, filtered := voteMalformed, voteFiltered
+		n := 4
+		if ev.t() == bundleVerified {
+			// a verified bundle either causes a threshold or is filtered
+			malformed, filtered = bundleMalformed, bundleFiltered
+			n = 3
+		}
+		switch vr.Choice("vm.verified", n) {
+		case 0:
+			a.ansT = malformed
+			o.record(a)
+			return filteredEvent{T: malformed, Err: verifC01Err}
+		case 1:
+			a.ansT = filtered
+			o.record(a)
+			return filteredEvent{T: filtered, Err: verifC01Err}
+		case 3:
+			a.ansT = none
+			o.record(a)
+			return emptyEvent{}
+		}
+		// a threshold event, always of the player's round: voteAggregator.handle returns tE only if
+		// tE.Round == FreshnessData.PlayerRound (next-round thresholds stay pipelined in the
+		// voteTrackerRound); bundleFresh admits bundles of PlayerRound only
+		a.thr = verifC01Threshold(o, verifC01ThresholdKind(o, "vm.kind"), ev.FreshnessData.PlayerRound, "vm")
+		a.ansT = a.thr.T
+		a.val = a.thr.Proposal
+		o.record(a)
+		return a.thr
+	}
 	vr.Assert("c01.oracle.unexpected-request", false)
 	return emptyEvent{}
 }
@@ -418,7 +664,8 @@ func verifC01Step(p *player, rh routerHandle, e event) (out []action) {
 			if _, isRuntime := r.(runtime.Error); isRuntime {
 				panic(r)
 			}
-			if _, isString := r.(string); isString {
+			// (the engine's logging model panics with the string "log.Panicf"; natively logrus panics with an *Entry)
+			if s, isString := r.(string); isString && !strings.HasPrefix(s, "log.") {
 				panic(r)
 			}
 			vr.Assume(false)
@@ -455,8 +702,12 @@ func verifC01AssertS5(p *player, out []action) {
 }
 
 // S1: a cert-step attest for v is backed by a proposalCommittable answer for
-// v != bottom, obtained for the vote's (round, period) while Step <= cert.
-func verifC01AssertS1(o *verifC01Oracle, out []action) {
+// v != bottom obtained for the vote's (round, period), and is cast at a step
+// <= cert: either the answer was obtained in that very period at a step <=
+// cert, or while entering the period (enterPeriod/enterRound: the new period
+// starts at step soft).  No vote-emitting path changes Step after the cert
+// vote, so "Step <= cert when voting" is also visible in the post-state.
+func verifC01AssertS1(o *verifC01Oracle, p *player, out []action) {
 	for _, act := range out {
 		pa, ok := act.(pseudonodeAction)
 		if !ok || pa.T != attest || pa.Step != cert {
@@ -464,21 +715,23 @@ func verifC01AssertS1(o *verifC01Oracle, out []action) {
 		}
 		vr.Reach("certvote")
 		vr.Assert("c01.S1.cert-not-bottom", pa.Proposal != bottom)
+		vr.Assert("c01.S1.cert-only-at-step-le-cert", p.Step <= cert)
 		backed := false
 		for i := 0; i < o.n; i++ {
 			q := &o.asks[i]
 			if q.ansT != proposalCommittable {
 				continue
 			}
+			inPeriod := q.stRound == pa.Round && q.stPeriod == pa.Period
 			switch q.kind {
 			case vkPMThreshold:
 				// the committable answer was for the soft threshold of (evRound, evPeriod)
-				if q.evT == softThreshold && q.evRound == pa.Round && q.evPeriod == pa.Period && q.val == pa.Proposal && q.stStep <= cert {
+				if q.evT == softThreshold && q.evRound == pa.Round && q.evPeriod == pa.Period && q.val == pa.Proposal && (!inPeriod || q.stStep <= cert) {
 					backed = true
 				}
 			case vkPMMessage:
 				// payloadVerified: committable w.r.t. the staging value of the player's (round, period)
-				if q.stRound == pa.Round && q.stPeriod == pa.Period && q.val == pa.Proposal && q.stStep <= cert {
+				if inPeriod && q.val == pa.Proposal && q.stStep <= cert {
 					backed = true
 				}
 			}
@@ -571,9 +824,180 @@ func verifC01CountEnsure(out []action) int {
 
 func verifC01AssertAllVotes(o *verifC01Oracle, p *player, out []action) {
 	verifC01AssertS5(p, out)
-	verifC01AssertS1(o, out)
+	verifC01AssertS1(o, p, out)
 	verifC01AssertS2(o, out)
 	verifC01AssertS3(o, out)
+}
+
+// The threshold events that can give rise to an ensureAction in this step, in
+// order: the top threshold event (the event itself, or the voteMachine's answer
+// to a vote/bundleVerified message), then every freshest-bundle answer that is
+// either re-handled by enterRound (the request directly follows the newRound
+// delivery) or consulted by the late-payload path of handleMessageEvent (the
+// request directly follows the proposalMachine's answer to the message).
+// partitionPolicy's freshest-bundle requests follow neither and are only relayed.
+func verifC01EnsureSources(o *verifC01Oracle, top *thresholdEvent) []thresholdEvent {
+	var hs []thresholdEvent
+	if top != nil {
+		hs = append(hs, *top)
+	}
+	for i := 1; i < o.n; i++ {
+		q := &o.asks[i]
+		prev := o.asks[i-1].kind
+		if q.kind == vkFreshest && q.flag && (prev == vkPMNewRound || prev == vkPMMessage) {
+			hs = append(hs, q.thr)
+		}
+	}
+	return hs
+}
+
+// the voteMachine's threshold answer to a verified vote/bundle, if any
+func verifC01AnsweredThreshold(o *verifC01Oracle) *thresholdEvent {
+	for i := 0; i < o.n; i++ {
+		q := &o.asks[i]
+		if q.kind == vkVMMessage && (q.ansT == softThreshold || q.ansT == certThreshold || q.ansT == nextThreshold) {
+			return &q.thr
+		}
+	}
+	return nil
+}
+
+// C03 lemma + the Round part of S4.  The k-th ensureAction carries the bundle
+// of the k-th ensure source, which is a cert threshold for round base+k; the
+// payload handed to the ledger is the one the oracle reported committable
+// (with that very payload) for the event's (round, period) - or, on the
+// late-payload path (late != nil, k == 0), the verified payload of the message
+// itself, accepted by the proposal machine - and its value is the certified
+// value.  The player ends in round base + #ensureActions.
+func verifC01AssertEnsure(tag string, o *verifC01Oracle, base round, hs []thresholdEvent, late *messageEvent, p *player, out []action) int {
+	k := 0
+	for _, act := range out {
+		ea, ok := act.(ensureAction)
+		if !ok {
+			continue
+		}
+		vr.Reach("ensure")
+		if k >= len(hs) {
+			vr.Assert(tag+".ensure-has-cert-threshold", false)
+			k++
+			continue
+		}
+		h := hs[k]
+		c := ea.Certificate
+		vr.Assert(tag+".ensure-from-cert-threshold", h.T == certThreshold)
+		vr.Assert(tag+".cert-is-event-bundle", c.Round == h.Bundle.Round && c.Period == h.Bundle.Period && c.Step == h.Bundle.Step && c.Proposal == h.Bundle.Proposal &&
+			len(c.Votes) == 1 && len(c.EquivocationVotes) == 0 && c.Votes[0].Sender[0] == h.Bundle.Votes[0].Sender[0])
+		vr.Assert(tag+".cert-round-is-player-round", c.Round == base+round(k))
+		vr.Assert(tag+".cert-step", c.Step == cert)
+		vr.Assert(tag+".cert-not-bottom", c.Proposal != bottom)
+		found := false
+		if late != nil && k == 0 {
+			vr.Reach("latepayload")
+			for i := 0; i < o.n; i++ {
+				q := &o.asks[i]
+				if q.kind == vkPMMessage && (q.ansT == proposalCommittable || q.ansT == payloadAccepted) && q.val == c.Proposal && late.Input.Proposal.SeedProof[0] == ea.Payload.SeedProof[0] {
+					found = true
+				}
+			}
+		} else {
+			for i := 0; i < o.n; i++ {
+				q := &o.asks[i]
+				if q.kind == vkStaged && q.flag && q.r == h.Round && q.p == h.Period && q.val == c.Proposal && q.marker == ea.Payload.SeedProof[0] {
+					found = true
+				}
+			}
+		}
+		vr.Assert(tag+".payload-is-committable-value", found)
+		vr.Assert(tag+".payload-value-is-certified", verifStubProposalValue(ea.Payload.u()) == c.Proposal)
+		k++
+	}
+	vr.Assert(tag+".round-advances-once-per-ensure", p.Round == base+round(k))
+	return k
+}
+
+// S4 for every event but roundInterruption: (Round, Period) moves exactly as
+// the handled threshold event `top` (nil: none) prescribes.
+func verifC01AssertS4(pre verifC01Pre, top *thresholdEvent, nE int, p *player) {
+	vr.Assert("c01.S4.round-monotone", p.Round >= pre.Round)
+	if nE == 0 {
+		want := pre.Period
+		if top != nil {
+			switch top.T {
+			case softThreshold, certThreshold:
+				if top.Period > pre.Period {
+					want = top.Period
+				}
+			case nextThreshold:
+				if top.Period >= pre.Period {
+					want = top.Period + 1
+				}
+			}
+		}
+		vr.Assert("c01.S4.period-as-prescribed", p.Period == want)
+		vr.Assert("c01.S4.period-monotone", p.Period >= pre.Period)
+		if p.Period != pre.Period {
+			vr.Reach("newperiod")
+			vr.Assert("c01.S4.new-period-starts-at-soft", p.Step == soft && !p.Napping)
+		} else {
+			vr.Assert("c01.S4.step-unchanged", p.Step == pre.Step)
+		}
+	} else {
+		// a new round starts in period 0; the pipelined freshest bundle of the new round is of
+		// period 0, so at most a next threshold moves on to period 1
+		vr.Assert("c01.S4.new-round-period", p.Period <= 1)
+		vr.Assert("c01.S4.new-round-starts-at-soft", p.Step == soft && !p.Napping)
+	}
+}
+
+// ---------------------------------------------------------------------------
+// symbolic events
+
+func verifC01TimeoutEvent(t eventType, round round) timeoutEvent {
+	var e timeoutEvent
+	e.T = t
+	e.RandomEntropy = vr.U64("ev.entropy")
+	e.Round = round
+	// the consensus version view attached by demux.next from Ledger.ConsensusVersion: a supported
+	// version without error, or an error (and no version).  player.handle additionally tolerates an
+	// empty version without error for ordinary timeouts; handleFastTimeout does not (it would divide
+	// by FastRecoveryLambda == 0), and demux never produces it.
+	nproto := 2
+	if t == timeout {
+		nproto = 3
+	}
+	switch vr.Choice("ev.proto", nproto) {
+	case 0:
+		e.Proto.Version = "vT"
+	case 1:
+		e.Proto.Err = makeSerErrStr("verif: no consensus version")
+	}
+	return e
+}
+
+func verifC01MessageBase(t eventType) messageEvent {
+	var e messageEvent
+	e.T = t
+	e.Proto.Version = "vT"
+	e.TaskIndex = 1
+	if vr.Bool("ev.fromnetwork") {
+		e.Input.messageHandle = 7 // a message received from a peer; nil = produced by this node
+	}
+	return e
+}
+
+func verifC01SymbolicVote(o *verifC01Oracle, proposalVote bool) vote {
+	var v vote
+	v.R.Round = round(vr.U64("ev.vote.round"))
+	v.R.Period = period(vr.U64("ev.vote.period"))
+	v.R.Step = step(vr.U64("ev.vote.step"))
+	if proposalVote {
+		v.R.Step = propose
+	} else {
+		vr.Assume(v.R.Step != propose)
+	}
+	v.R.Proposal = verifC01PickVal(o, "ev.vote.value")
+	v.R.Sender = verifSender(verifC01Pick("ev.vote.sender", 3))
+	return v
 }
 
 // ---------------------------------------------------------------------------
@@ -591,8 +1015,8 @@ func verifC01AssertAllVotes(o *verifC01Oracle, p *player, out []action) {
 
 func verifC01ModelSanity() {
 	o := verifC01NewOracle()
-	i := verifC04Pick("i", verifC01Values)
-	j := verifC04Pick("j", verifC01Values)
+	i := verifC01Pick("i", verifC01Values)
+	j := verifC01Pick("j", verifC01Values)
 	vi, vj := verifC01Val(o, i), verifC01Val(o, j)
 	vr.Assert("model.value-injective", (vi == vj) == (i == j))
 	vr.Assert("model.zero-is-bottom", (vi == bottom) == (i == 0))
